@@ -27,6 +27,7 @@ from dask_expr._expr import (  # noqa: F401
     Projection,
     Unaryop,
     _DelayedExpr,
+    _used_below_non_rowwise,
     are_co_aligned,
     determine_column_projection,
     is_filter_pushdown_available,
@@ -90,6 +91,11 @@ class Merge(Expr):
         )
 
     def _filter_passthrough_available(self, parent, dependents):
+        if _used_below_non_rowwise(parent.predicate, {self._name}):
+            # e.g. m[m.b > m.b.mean() + 1]: a reduction over the join result
+            # changes with the rows, so neither the filter nor a part of it can
+            # be evaluated on one input or on an already filtered join
+            return False
         if is_filter_pushdown_available(self, parent, dependents):
             predicate = parent.predicate
             # This protects against recursion, no need to separate ands if the first
